@@ -39,6 +39,7 @@ import (
 	"io"
 	"net/url"
 	"os"
+	"reflect"
 	"strings"
 
 	"github.com/robertkrimen/otto/ast"
@@ -138,6 +139,9 @@ func ReadSource(filename string, src interface{}) ([]byte, error) {
 				return src.Bytes(), nil
 			}
 		case io.Reader:
+			if isNilPointer(src) {
+				return nil, fmt.Errorf("invalid src: nil %T", src)
+			}
 			var bfr bytes.Buffer
 			if _, err := io.Copy(&bfr, src); err != nil {
 				return nil, err
@@ -160,6 +164,12 @@ func parseSourceMap(filename string, b []byte) (*sourcemap.Consumer, error) {
 	return sourcemap.Parse(filename, b)
 }
 
+// isNilPointer reports whether src is a nil pointer inside a non-nil interface.
+func isNilPointer(src interface{}) bool {
+	v := reflect.ValueOf(src)
+	return v.Kind() == reflect.Ptr && v.IsNil()
+}
+
 // ReadSourceMap reads the source map from src if not nil, otherwise is a noop.
 func ReadSourceMap(filename string, src interface{}) (*sourcemap.Consumer, error) {
 	if src == nil {
@@ -172,8 +182,14 @@ func ReadSourceMap(filename string, src interface{}) (*sourcemap.Consumer, error
 	case []byte:
 		return parseSourceMap(filename, src)
 	case *bytes.Buffer:
+		if src == nil {
+			return nil, nil //nolint:nilnil
+		}
 		return parseSourceMap(filename, src.Bytes())
 	case io.Reader:
+		if isNilPointer(src) {
+			return nil, fmt.Errorf("invalid sourcemap: nil %T", src)
+		}
 		var bfr bytes.Buffer
 		if _, err := io.Copy(&bfr, src); err != nil {
 			return nil, err
